@@ -1,4 +1,4 @@
-use super::state::{timestamp_from_ts_infix, InfixFormat};
+use super::state::{is_timestamp_infix, InfixFormat};
 
 #[derive(Clone)]
 pub(crate) enum InfixFilter {
@@ -12,9 +12,7 @@ pub(crate) enum InfixFilter {
 impl InfixFilter {
     pub(crate) fn filter_infix(&self, infix: &str) -> bool {
         match self {
-            InfixFilter::Timstmps(infix_format) => {
-                timestamp_from_ts_infix(infix, infix_format).is_ok()
-            }
+            InfixFilter::Timstmps(infix_format) => is_timestamp_infix(infix, infix_format),
             // 'r' and the number, nothing else
             InfixFilter::Numbrs => infix.strip_prefix('r').is_some_and(|digits| {
                 !digits.is_empty() && digits.bytes().all(|b| b.is_ascii_digit())
